@@ -1094,3 +1094,37 @@ O(id="C20.salt_alphabet", props=["C20"], entry="harness_fill_salt", reach=["long
 for _c, _nm in ((9, "after_failed_authentication_as_the_target"), (10, "after_failed_authentication_as_admin"), (11, "after_failed_admin_claim_of_an_authenticated_user")):
     O(id="C20.passwd_" + _nm, props=["C20", "C08", "C02"], entry="harness_passwd", defines=["PWCASE=%d" % _c], reach=["refused"], functions=_AF,
       symbolic="(concrete requester/target)", assumes=["the failed authentication is answered with an error"], bounds="database of 10 users; %s" % _nm.replace("_", " "), **_scn_auth)
+
+# ------------------------------------------------------------------------------------------------ round 6 (groups A, B) strengthening
+O(id="C01.history_own_fetch", props=["C01", "C04", "C07"], harness="harness/scn_hist.c", entry="harness_history", defines=["HIST=6"],
+  functions=["add_element_to_peer", "find_fetchers_for_element", "change_state", "add_fetch_to_peer", "notify_fetchers"],
+  symbolic="state values", assumes=["the history's requests succeed"], bounds="A fetches and B fetches; A adds and changes 'x' itself",
+  **dict({k: v for k, v in _scn_guard.items() if k != "harness"}, unwind=22))
+O(id="C03.two_requests_without_id", props=["C03", "C07"], entry="harness_two_requests_without_id", functions=_RF, symbolic="set value", assumes=["set-up succeeds"],
+  bounds="skeleton: O add 's'; A set without id twice; O answers both", **_scn_route)
+O(id="C03.owner_leaves_after_element_removed", props=["C03", "C05", "C07"], entry="harness_owner_leaves_after_element_removed", functions=_RF + ["remove_element_from_peer"],
+  symbolic="set value", assumes=["set-up succeeds"], bounds="skeleton: O add 's'; A set; O remove 's'; O disconnects", **_scn_route)
+for _i, _nm in ((42, "unfetch_numeric_id_of_string_fetch"), (43, "fetch_numeric_id_bad_rule")):
+    O(id="C06.shape_" + _nm, props=["C06", "C02", "C04"], entry="harness_shape", defines=["SHAPE=%d" % _i], reach=["refused", "with_id"],
+      functions=["parse_message", "remove_fetch_from_peer", "add_fetch_to_peer", "find_fetch", "ids_equal"],
+      symbolic="the numeric id", assumes=["set-up (O add 's', B fetch-all with the string id 'fb') succeeds"],
+      bounds="one message of shape '%s' by B; 3 peers, 1 element, 1 subscription" % _nm, **_scn_shape)
+for _via in (0, 1):
+    O(id="C16.%srule_contains_all_of_with_number_a" % ("get_" if _via else ""), props=["C16", "C06", "C07"], entry="harness_rule", reach=["refused"],
+      defines=["RULE=22", "OPCHAR='a'"] + (["VIA_GET=1"] if _via else []), functions=["create_fetch", "add_matchers", "create_matcher", "fill_path_elements", "free_fetch"],
+      symbolic="state value", assumes=["set-up add of 'ab' succeeds"], bounds="containsAllOf ['a', 'b', 3] in a %s" % ("get" if _via else "fetch"), **_scn_rule)
+for _k, _kn in ((1, "owner_disconnect"), (2, "caller_disconnect")):
+    O(id="C14.batch_%s_with_writable_event" % _kn, props=["C14", "C05", "C06", "C11"], entry="harness_batch", defines=["REPLY_FIRST=1", "BATCH_KIND=%d" % _k, "OWN_EVENT=3"],
+      functions=["handle_events", "eventloop_epoll_add", "eventloop_epoll_remove", "free_peer_resources", "timer_read"],
+      symbolic="set value", assumes=["set-up requests succeed"],
+      bounds="one batch: the connection is readable AND writable, its read handler tears it down (registration removed) and reports 'continue'; then the request's expired timer", **_scn_batch)
+_also(["C14.batch_"], ["C14", "C06"])
+_also(["C16.match_functions", "C16.conjunction"], ["C01"])      # which paths a rule selects decides which elements a fetch replica contains
+# a request answered with an error under allocation failure left everything as it was: C04's last clause
+for _o in OBLIGATIONS:
+    if _o["id"].startswith(("C15.alloc_failure_change_", "C15.alloc_failure_add_")):
+        if "C04" not in _o["props"]:
+            _o["props"].append("C04")
+        _lp = _o.setdefault("label_props", {})
+        for _l in ("C15.change_answered_with_error_changed_nothing", "C15.add_answered_with_error_created_nothing", "C15.state_keeps_a_value"):
+            _lp[_l] = ["C15", "C04"]
